@@ -774,7 +774,10 @@ class URL:
         if authority:
             _add('//')
             _add(authority)
-        elif (scheme and path[:2] != '//' and self.uses_netloc):
+        elif (scheme and path[:2] != '//' and self.uses_netloc
+              and path[:1] in ('', '/')):
+            # (a rootless path directly after '//' would be read back
+            # as the authority)
             _add('//')
         if path:
             if scheme and authority and path[:1] != '/':
